@@ -266,8 +266,22 @@ func (c *scriptedCtx) expire() {
 	}
 }
 
-// runDo performs one call; returns outcome, hook log and the reads the transport served
+// runDo performs one call; returns outcome, hook log and the reads the transport served.
+// The client's total read timeout is real time. A call that ends in that timeout although the transport still had
+// scripted events to deliver was not given the CPU to read them in time (the scripted reads themselves never wait):
+// it says nothing about the client and is repeated with a longer timeout.
 func runDo(kind string, hooks bool, flusher string, reqSpec string, script string) (string, string, string) {
+	o, l, c, early := runDoOnce(kind, hooks, flusher, reqSpec, script, 1)
+	for _, scale := range []int{8, 64} {
+		if !early {
+			break
+		}
+		o, l, c, early = runDoOnce(kind, hooks, flusher, reqSpec, script, scale)
+	}
+	return o, l, c
+}
+
+func runDoOnce(kind string, hooks bool, flusher string, reqSpec string, script string, scale int) (string, string, string, bool) {
 	evs, writeFails, preCancel := parseScript(script)
 	ctx, cancel := context.WithCancel(context.Background())
 	defer cancel()
@@ -298,19 +312,19 @@ func runDo(kind string, hooks bool, flusher string, reqSpec string, script strin
 		a := parseNewArgs([]string{p[0], fr, p[1], p[2], p[3], p[4], p[5], p[6], p[7], p[8]})
 		r, err := construct(a)
 		if err != nil {
-			return "NOREQ", "-", "-"
+			return "NOREQ", "-", "-", false
 		}
 		req = r
 	}
 	// a stalled transport ends with the total read timeout; keep it short but far above the script's run time
-	readTimeout := 1500 * time.Millisecond
+	readTimeout := 30 * time.Second
 	stalls := true
 	if len(evs) > 0 {
 		last := evs[len(evs)-1].kind
 		stalls = last == "d" || last == "t" || (last == "e" && kind == "s")
 	}
 	if stalls {
-		readTimeout = 120 * time.Millisecond
+		readTimeout = time.Duration(scale) * 120 * time.Millisecond
 	}
 	var resp packet.Response
 	var err error
@@ -381,8 +395,8 @@ func runDo(kind string, hooks bool, flusher string, reqSpec string, script strin
 	}()
 	select {
 	case <-done:
-	case <-time.After(10 * time.Second):
-		return "HANG", "-", "-"
+	case <-time.After(90*time.Second + readTimeout):
+		return "HANG", "-", "-", false
 	}
 	outcome := ""
 	switch {
@@ -434,7 +448,11 @@ func runDo(kind string, hooks bool, flusher string, reqSpec string, script strin
 	if notConnected || reqSpec == "nil" {
 		cs = "-"
 	}
-	return outcome, ls, cs
+	conn.mu.Lock()
+	unread := len(conn.script) > 0 || len(conn.pending) > 0
+	conn.mu.Unlock()
+	early := unread && strings.Contains(outcome, "client:timeout")
+	return outcome, ls, cs, early
 }
 
 func execDo(ts []string) string {
